@@ -21,6 +21,11 @@ open AMap
 
 def WF (l : Local) (c : Cat) : Prop := LocalWF l ∧ CatWF c ∧ NoEmptyKey l c
 
+/-- no deferred-output timer is armed (always so with CheckUpdateInterval = 0). While the timer of
+    a check is armed `updateSyncState` deliberately ignores its Output, so the catalog may lag
+    behind until the timer fires or the check is pushed for another reason. -/
+def NoArmed (l : Local) : Prop := ∀ k, l.armed k = false
+
 /-! ## 1. convergence of a clean full sync -/
 
 /-- What "the catalog equals the local registrations" means after a sync that returned `r`,
@@ -43,7 +48,7 @@ def Converged (cfg : Cfg) (l : Local) (r : St) : Prop :=
 /-- Convergence, for all local states, catalogs and iteration orders, under the explicit
     hypothesis that no check pending removal is bound elsewhere in the catalog. -/
 theorem clean_full_sync_converges_partial (cfg : Cfg) (ord : Order) (f : Faults) (l : Local) (c : Cat)
-    (hf : AllOk f) (hw : WF l c) (hnr : NoRebound l c) (hcd : CaseDistinct l c) :
+    (hf : AllOk f) (hw : WF l c) (hnr : NoRebound l c) (hcd : CaseDistinct l c) (hna : NoArmed l) :
     Converged cfg l (syncFull cfg ord f l c) := by
   obtain ⟨hrs, hrc, hno, hso, hco⟩ := hf
   obtain ⟨hl, hc, hn⟩ := hw
@@ -51,7 +56,7 @@ theorem clean_full_sync_converges_partial (cfg : Cfg) (ord : Order) (f : Faults)
     fun l' => ⟨fun id h => (by rw [hso id] at h; cases h), fun k h => (by rw [hco k] at h; cases h),
                fun k d _ h => (by rw [hso d.sid] at h; cases h)⟩
   have g1 : GInv True (fun _ => False) (fun _ => False) (KeptSvc l) (KeptChk l) (updateSyncState cfg l c) c :=
-    uss_GInv cfg l c hl hc hn (fun _ => hnr)
+    uss_GInv cfg l c hl hc hn (fun _ => hnr) (fun k h => by rw [hna k] at h; cases h)
   unfold syncFull
   rw [hrs, hrc]; simp only [Bool.and_self, if_true]
   -- the two loops from a state with node info in sync
@@ -113,7 +118,7 @@ theorem clean_full_sync_converges_partial (cfg : Cfg) (ord : Order) (f : Faults)
 /-! ### the counterexample to the full-strength statement (the known finding) -/
 
 def allOk : Faults := ⟨true, true, .ok, fun _ => .ok, fun _ => .ok⟩
-def exCfg : Cfg := ⟨1, "", ""⟩
+def exCfg : Cfg := { nodeVal := 1, cfgTok := "", userTok := "" }
 def exWeb : SvcDef := ⟨"web", ["a"], false, 80, []⟩
 def exApi : SvcDef := ⟨"api", [], false, 81, []⟩
 
@@ -225,13 +230,15 @@ theorem sync_preserves_sound (cfg : Cfg) (ord : Order) (f : Faults) (l : Local) 
   exact (syncChanges_GInv cfg ord f l c hcov g).1.snd
 
 /-- A full sync needs no assumption on the old marks at all: `updateSyncState` recomputes every
-    mark from the catalog, so afterwards only this sync's refusals can be unsound. -/
+    mark from the catalog, so afterwards only this sync's refusals can be unsound — and the checks
+    whose defer timer is armed (their Output is ignored on purpose until the timer fires). -/
 theorem full_sync_sound (cfg : Cfg) (ord : Order) (f : Faults) (l : Local) (c : Cat) (Rs Rc : Id → Prop)
-    (hw : WF l c) (hr : f.readSvcs = true ∧ f.readChks = true) (hcov : Covers f l Rs Rc) :
+    (hw : WF l c) (hr : f.readSvcs = true ∧ f.readChks = true) (hcov : Covers f l Rs Rc)
+    (harm : ∀ k, l.armed k = true → Rc k) :
     SoundExcept Rs Rc (syncFull cfg ord f l c).l (syncFull cfg ord f l c).c := by
   unfold syncFull; rw [hr.1, hr.2]; simp only [Bool.and_self, if_true]
   have g : GInv False Rs Rc (KeptSvc l) (KeptChk l) (updateSyncState cfg l c) c :=
-    uss_GInv cfg l c hw.1 hw.2.1 hw.2.2 (fun h => h.elim)
+    uss_GInv cfg l c hw.1 hw.2.1 hw.2.2 (fun h => h.elim) harm
   have hcov' : Covers f (updateSyncState cfg l c) Rs Rc :=
     ⟨hcov.svc, hcov.chk, fun k d h => hcov.rid k d (by rw [← uss_liveChk cfg l c k]; exact h)⟩
   exact (syncChanges_GInv cfg ord f _ c hcov' g).1.snd
@@ -243,8 +250,9 @@ theorem denied_retried_each_full_sync (cfg : Cfg) (l : Local) (c : Cat) :
     (∀ id e, (updateSyncState cfg l c).svcs.get? id = some e → c.svcs.get? id = none → e.inSync = false) ∧
     (∀ k e, (updateSyncState cfg l c).chks.get? k = some e → c.chks.get? k = none → e.inSync = false) ∧
     (∀ id d tok loc, (updateSyncState cfg l c).svcs.get? id = some (.ent d tok loc true false) → c.svcs.get? id = some d) ∧
-    (∀ k d tok loc, (updateSyncState cfg l c).chks.get? k = some (.ent d tok loc true false) → c.chks.get? k = some d) := by
-  refine ⟨?_, ?_, uss_sound_svc cfg l c, uss_sound_chk cfg l c⟩
+    (∀ k d tok loc, l.armed k = false →
+        (updateSyncState cfg l c).chks.get? k = some (.ent d tok loc true false) → c.chks.get? k = some d) := by
+  refine ⟨?_, ?_, uss_sound_svc cfg l c, fun k d tok loc ha h => uss_sound_chk cfg l c k d tok loc ha h⟩
   · intro id e h hc
     rw [uss_svcs] at h
     cases hl : l.svcs.get? id with
@@ -300,12 +308,12 @@ theorem refused_check_deregistration_stays_pending_and_is_retried (cfg : Cfg) (f
     the catalog and from the local state — in particular one left `Deleted` + `InSync` by a
     refused deregistration (no assumption on `e.inSync`). -/
 theorem refused_deregistration_retried_by_next_clean_full_sync (cfg : Cfg) (ord : Order) (f : Faults) (l : Local) (c : Cat)
-    (hf : AllOk f) (hw : WF l c) (hnr : NoRebound l c) (hcd : CaseDistinct l c) :
+    (hf : AllOk f) (hw : WF l c) (hnr : NoRebound l c) (hcd : CaseDistinct l c) (hna : NoArmed l) :
     (∀ id e, l.svcs.get? id = some e → e.deleted = true →
         (syncFull cfg ord f l c).l.svcs.get? id = none ∧ (syncFull cfg ord f l c).c.svcs.get? id = none) ∧
     (∀ k e, l.chks.get? k = some e → e.deleted = true →
         (syncFull cfg ord f l c).l.chks.get? k = none ∧ (syncFull cfg ord f l c).c.chks.get? k = none) := by
-  obtain ⟨_, _, _, d1, d2, c1, c2⟩ := clean_full_sync_converges_partial cfg ord f l c hf hw hnr hcd
+  obtain ⟨_, _, _, d1, d2, c1, c2⟩ := clean_full_sync_converges_partial cfg ord f l c hf hw hnr hcd hna
   obtain ⟨k1, k2⟩ := full_sync_keeps_registrations cfg ord f l c ⟨hf.1, hf.2.1⟩
   constructor
   · intro id e he hd
@@ -355,7 +363,8 @@ theorem failure_never_marks_service (cfg : Cfg) (ord : Order) (f : Faults) (l : 
     · rw [e1]
 
 /-- the record of a check whose own RPC fails, and whose service's RPC (on which it could ride,
-    or which could prune it) fails too, comes out of `SyncChanges` exactly as it went in -/
+    or which could prune it) fails too, comes out of `SyncChanges` exactly as it went in (only its
+    defer timer, if one was armed, has been stopped and cleared by the attempted push) -/
 theorem failure_never_marks_check (cfg : Cfg) (ord : Order) (f : Faults) (l : Local) (c : Cat) (k : Id) (e : Ent ChkDef)
     (he : l.chks.get? k = some e) (h : Failed (f.chk k))
     (hs : ∀ d tok loc b del, e = .ent d tok loc b del → Failed (f.svc d.sid)) :
@@ -436,7 +445,7 @@ theorem sync_full_preserves_wf (cfg : Cfg) (ord : Order) (f : Faults) (l : Local
   unfold syncFull
   split
   · have g : GInv True (fun _ => True) (fun _ => True) (KeptSvc l) (KeptChk l) (updateSyncState cfg l c) c :=
-      uss_GInv cfg l c hw.1 hw.2.1 hw.2.2 (fun _ => hnr)
+      uss_GInv cfg l c hw.1 hw.2.1 hw.2.2 (fun _ => hnr) (fun _ _ => trivial)
     obtain ⟨g', _, _⟩ := syncChanges_GInv cfg ord f _ c ⟨fun _ _ => trivial, fun _ _ => trivial, fun _ _ _ _ => trivial⟩ g
     exact ⟨⟨g'.lwf, g'.cwf, g'.nek⟩, g'.nrb trivial⟩
   · exact ⟨hw, hnr⟩
@@ -445,11 +454,16 @@ theorem sync_full_preserves_wf (cfg : Cfg) (ord : Order) (f : Faults) (l : Local
     converges. -/
 theorem repair_after_failure (cfg : Cfg) (ord₁ ord₂ : Order) (f₁ f₂ : Faults) (l : Local) (c : Cat)
     (hw : WF l c) (hnr : NoRebound l c) (hf : AllOk f₂)
-    (hcd : CaseDistinct (syncFull cfg ord₁ f₁ l c).l (syncFull cfg ord₁ f₁ l c).c) :
+    (hcd : CaseDistinct (syncFull cfg ord₁ f₁ l c).l (syncFull cfg ord₁ f₁ l c).c) (hna : NoArmed l) :
     Converged cfg (syncFull cfg ord₁ f₁ l c).l
       (syncFull cfg ord₂ f₂ (syncFull cfg ord₁ f₁ l c).l (syncFull cfg ord₁ f₁ l c).c) := by
   obtain ⟨hw', hnr'⟩ := sync_full_preserves_wf cfg ord₁ f₁ l c hw hnr
-  exact clean_full_sync_converges_partial cfg ord₂ f₂ _ _ hf hw' hnr' hcd
+  have hna' : NoArmed (syncFull cfg ord₁ f₁ l c).l := by
+    intro k
+    cases h : (syncFull cfg ord₁ f₁ l c).l.armed k with
+    | false => rfl
+    | true => have := syncFull_armed cfg ord₁ f₁ l c k h; rw [hna k] at this; cases this
+  exact clean_full_sync_converges_partial cfg ord₂ f₂ _ _ hf hw' hnr' hcd hna'
 
 /-- `LocalWF` is not an assumption about luck: the operations the agent performs on its local state
     (register a service; add a check for a registered service; remove a check; update a check;
@@ -458,13 +472,83 @@ theorem agent_operations_keep_LocalWF (l l' : Local) (hw : LocalWF l) :
     (∀ id d tok loc, addSvc1 l id d tok loc = (.ok, l') → LocalWF l') ∧
     (∀ k d tok loc, addChk1 l k d tok loc = (.ok, l') → (d.sid ≠ "" → liveSvc l d.sid ≠ none) → LocalWF l') ∧
     (∀ k, rmChk l k = (.ok, l') → LocalWF l') ∧
-    (∀ k st, LocalWF (updChk l k st)) ∧
+    (∀ cui k st, LocalWF (updChk cui l k st)) ∧
     (∀ id ks, rmSvc l id ks = (.ok, l') → (∀ k d, liveChk l k = some d → d.sid = id → k ∈ ks) → LocalWF l') :=
   ⟨fun id d tok loc h => (addSvc1_LocalWF l l' id d tok loc h hw).1,
    fun k d tok loc h hs => (addChk1_LocalWF l l' k d tok loc h hs hw).1,
    fun k h => (rmChk_LocalWF l l' k h hw).1,
-   fun k st => updChk_LocalWF l k st hw,
+   fun cui k st => updChk_LocalWF cui l k st hw,
    fun id ks h hall => rmSvc_LocalWF l l' id ks h hall hw⟩
+
+/-! ## 6b. deferred check output (CheckUpdateInterval > 0)
+
+In the model an armed timer is a running timer: `dfr` is one flag per check. The places where
+the code stops a timer are exactly the places where the model clears the flag (the push of the
+check in `SyncChanges`, and the removal of the record); nothing else takes a check out of `dfr`
+except the timer firing. A "stopped but still armed" timer — a check that no output update can
+ever push again — is not a state of the model; the harness probes every armed timer of the
+implementation for being a running one (monitor `defer:…`). -/
+
+/-- syncing never arms a timer -/
+theorem sync_never_arms (cfg : Cfg) (ord : Order) (f : Faults) (l : Local) (c : Cat) (k : Id)
+    (h : (syncFull cfg ord f l c).l.armed k = true) : l.armed k = true := syncFull_armed cfg ord f l c k h
+
+/-- the push of an out-of-sync check stops and CLEARS its timer, whatever the RPC outcome, so a
+    later output-only update arms a fresh one -/
+theorem push_clears_timer (cfg : Cfg) (f : Faults) (s : St) (k : Id) (d : ChkDef) (tok : String) (loc : Bool)
+    (he : s.l.chks.get? k = some (.ent d tok loc false false)) :
+    (chkStep cfg f s k).l.armed k = false ∧
+    ∀ st, st ≠ d.status → st % 3 = d.status % 3 →
+      (updChk true { (chkStep cfg f s k).l with chks := (chkStep cfg f s k).l.chks.set k (.ent d tok loc true false) } k st).armed k = true := by
+  refine ⟨chkStep_push_disarms cfg f s k d tok loc he, ?_⟩
+  intro st h1 h2
+  unfold updChk
+  simp only [get?_set, if_true]
+  rw [if_neg (fun e => h1 e.symm)]
+  simp only [h2, and_self, if_true]
+  rw [armed_arm]; simp
+
+/-- a firing timer clears itself and marks a registered check out of sync -/
+theorem fire_clears_timer_and_marks (l : Local) (k : Id) (d : ChkDef) (tok : String) (loc b : Bool)
+    (ha : l.armed k = true) (he : l.chks.get? k = some (.ent d tok loc b false)) :
+    (fire l k).armed k = false ∧ (fire l k).chks.get? k = some (.ent d tok loc false false) := by
+  refine ⟨by rw [fire_armed]; simp, ?_⟩
+  unfold fire
+  rw [if_pos ha, he]
+  simp [get?_set]
+
+/-- Convergence with timers: once every armed timer has fired, the next full sync whose RPCs
+    succeed makes the catalog equal the local registrations (Output included). -/
+theorem converges_after_timers_fire (cfg : Cfg) (ord : Order) (f : Faults) (l : Local) (c : Cat)
+    (hf : AllOk f) (hw : WF l c) (hnr : NoRebound l c) (hcd : CaseDistinct l c) :
+    Converged cfg (fireAll l) (syncFull cfg ord f (fireAll l) c) ∧
+    (∀ k, liveChk (fireAll l) k = liveChk l k) ∧ (∀ id, liveSvc (fireAll l) id = liveSvc l id) := by
+  obtain ⟨s1, s2, s3, s4, s5, _⟩ := fireFold_spec l.dfr l
+  have hw' : WF (fireAll l) c := by
+    refine ⟨?_, hw.2.1, ?_⟩
+    · intro k d h1 h2
+      have h1' : liveChk l k = some d := by rw [← s3 k]; exact h1
+      have := hw.1 k d h1' h2
+      show liveSvc (fireAll l) d.sid ≠ none
+      unfold fireAll; rw [s2]; exact this
+    · obtain ⟨n1, n2, n3, n4⟩ := hw.2.2
+      refine ⟨by show (fireAll l).svcs.get? "" = none; unfold fireAll; rw [s1]; exact n1, ?_, n3, n4⟩
+      cases h : (fireAll l).chks.get? "" with
+      | none => rfl
+      | some e => exact absurd n2 ((s4 "").mp (by unfold fireAll at h; rw [h]; simp))
+  have hnr' : NoRebound (fireAll l) c := by
+    intro k d tok loc b rc h1 h2 h3
+    exact hnr k d tok loc b rc (s5 k d tok loc b h1) h2 h3
+  have hcd' : CaseDistinct (fireAll l) c := by
+    have hm : ∀ a, Mentions (fireAll l) c a → Mentions l c a := by
+      intro a h
+      rcases h with h | h | h | h
+      · left; unfold fireAll at h; rw [s1] at h; exact h
+      · right; left; exact (s4 a).mp h
+      · right; right; left; exact h
+      · right; right; right; exact h
+    intro a b ha hb h; exact hcd a b (hm a ha) (hm b hb) h
+  exact ⟨clean_full_sync_converges_partial cfg ord f _ c hf hw' hnr' hcd' (fireAll_noArmed l), s3, s2⟩
 
 /-! ## 7. the scheduler (agent/ae): a failed full sync is retried as a full sync -/
 
@@ -530,7 +614,7 @@ theorem ok_casedistinct : CaseDistinct okL okC := by
     first | rfl | (exfalso; revert h; decide)
 
 example : Converged exCfg okL (syncFull exCfg ⟨["web"], []⟩ allOk okL okC) :=
-  clean_full_sync_converges_partial _ _ _ _ _ allOk_ok ok_wf ok_norebound ok_casedistinct
+  clean_full_sync_converges_partial _ _ _ _ _ allOk_ok ok_wf ok_norebound ok_casedistinct (fun _ => rfl)
 
 /-- the hypothesis is not idle: ids that differ only in case are excluded -/
 example : ¬ CaseDistinct { okL with svcs := ("Web", .ghost false) :: okL.svcs } okC := by
